@@ -390,7 +390,10 @@ func runC10(rec *vkit.Recorder, c *c10Case) []vkit.Violation {
 			if !heldBefore {
 				m = nil
 			}
-			if m != nil {
+			if m != nil && m.job == "jgone" {
+				// the proxy has no scrape information for that job: the request is refused, nothing is counted
+				flags["scrape-of-a-target-whose-job-is-not-configured"] = true
+			} else if m != nil {
 				if !m.synced {
 					// first observation after a restart has not happened yet: observe below re-syncs
 				} else {
@@ -524,7 +527,9 @@ func genC10(t *rapid.T) *c10Case {
 					} else if rapid.IntRange(0, 2).Draw(t, fmt.Sprintf("%s-h%d-st", l, h)) == 0 {
 						ct.State = "in_transfer"
 					}
-					job := rapid.SampledFrom([]string{"ja", "jb"}).Draw(t, fmt.Sprintf("%s-h%d-job", l, h))
+					// "jgone": a job the sidecar's configuration does not (or no longer) contain - a reload renamed or
+					// removed it while the coordinator still assigns under the old name; the assignment is kept all the same
+					job := rapid.SampledFrom([]string{"ja", "ja", "jb", "jb", "jgone"}).Draw(t, fmt.Sprintf("%s-h%d-job", l, h))
 					op.Assign[job] = append(op.Assign[job], ct)
 				}
 			}
